@@ -364,6 +364,7 @@ type c17Run struct {
 	connPort   atomic.Int64
 	connCalls  atomic.Int64
 	replyBytes []byte
+	helloSeen  atomic.Bool // the client's greeting was read from cb
 	cbReader   atomic.Bool // persistent reader on cb running
 	cbClosed   atomic.Bool // the client closed its end (observed)
 	teardown   atomic.Bool
@@ -1015,8 +1016,8 @@ func (r *c17Run) step(a string, i int) {
 		if r.outcome == "good" && (r.replyBytes == nil || r.cb == nil) {
 			return // the run went another (valid) way than the model's ordering: nothing to deliver
 		}
-		if r.outcome != "good" && (r.cb == nil || !r.cbReader.Load()) {
-			return
+		if r.outcome != "good" && (r.cb == nil || !r.helloSeen.Load() || r.cbClosed.Load()) {
+			return // the client never wrote its greeting (it had timed out already) or is gone
 		}
 		if r.outcome == "good" {
 			r.rec.emit(map[string]any{"e": "creply", "cls": "hello"}, nil)
@@ -1075,6 +1076,7 @@ func (r *c17Run) cfwd(max time.Duration) {
 			cls = "hello"
 		}
 		r.rec.emit(map[string]any{"e": "cwrite", "cls": cls}, nil)
+		r.helloSeen.Store(true)
 		r.aux["client_hello_ok"] = cls == "hello"
 		data := append([]byte(nil), buf[:n]...)
 		if r.sa != nil {
